@@ -121,7 +121,7 @@ GreedySpec == GInit /\ [][GStep]_vars
 Pos(e) == CHOOSE i \in DOMAIN ord : ord[i] = e
 CloserOrd(e, m) == Pos(e) < Pos(m)
 
-TypeOK == /\ adm \subseteq Src \X Tgt
+TypeOK == /\ adm \subseteq (IF inp = <<>> THEN Src \X Tgt ELSE (DOMAIN inp.pts) \X (DOMAIN inp.pts))
           /\ cand \subseteq adm
           /\ RangeOf(ord) \subseteq adm
           /\ M \subseteq cand
